@@ -3,6 +3,11 @@
 import json, subprocess
 ALL=[f"C{i:02d}" for i in range(1,20)]
 CLAIMED={
+ "C16": dict(
+   text="For each of the 140 Xdr-able types: a baseline and every value within 1-2 deviations (every optional/list shape, every discriminant value incl. undeclared, boundary lengths and integers) is encoded with nfstypes and with go-rpcgen's independent rfc1813 codec generated from the RFC's .x file - bytes, decoded values and re-encodings must agree; every prefix, extension and word substitution of the encodings is offered to both decoders; hand-derived golden vectors pin the primitive layout; all 22+6 procedure numbers are driven through the registration tables with a recording stub.",
+   note="Trusted: go-rpcgen's rfc1813 package and xdr helper library (shared by both codecs, hence the golden vectors); the RPC message header and record marking are go-rpcgen's rfc1057 server, outside go-nfsd. Mutated decoding is skipped for the two MOUNT result types with an unbounded word array. cmd/go-nfsd/main.go's RegisterMany call is not executed (needs rpcbind); the tables it passes are.",
+   technique="bounded-exhaustive enumeration of values and byte strings with differential comparison against an independent codec",
+   ref="DESIGN.md 4 (C16)"),
  "C11": dict(
    text="Per procedure the full Cartesian product of boundary domains for every argument (16 handle shapes, 12 names, 11 offsets/sizes up to 2^64-1, counts with agreeing and disagreeing data lengths, cookies, limits, enum values incl. illegal ones; RENAME/LINK over all handle pairs) in two or three file-system states, and every truncation / extension / 32-bit word substitution of the XDR argument bytes of one valid request per procedure (22 NFS + 6 MOUNT) fed through the registered rpcgen handlers; every call under the controlled scheduler must return (no panic, deadlock or runaway) and a sanity script must keep succeeding.",
    note="Replaces the property's coverage-guided fuzzing sub-clause (a sampling technique) by bounded-exhaustive mutation of the message bytes. Workers run under ulimit -v 16 GB; RPC header handling by go-rpcgen's rfc1057 server is outside go-nfsd and not exercised. Bounds: the boundary domains; one valid message per procedure.",
